@@ -240,6 +240,27 @@ func (e *Event) Name() string {
 // helper was renamed or moved and has been re-identified by its shape).
 var CanonFunc map[*types.Func]string
 
+// CanonType maps named types of the subject to the canonical name the rules know them by (used in method names).
+var CanonType map[*types.TypeName]string
+
+func typeObjName(o *types.TypeName) string {
+	if n, ok := CanonType[o]; ok {
+		return n
+	}
+	return o.Name()
+}
+
+// CanonGlobal maps package-level variables of the subject to the canonical name the rules know them by.
+var CanonGlobal map[types.Object]string
+
+// GlobalName is the (canonical) name of a package-level variable.
+func GlobalName(o types.Object) string {
+	if n, ok := CanonGlobal[o]; ok {
+		return n
+	}
+	return o.Name()
+}
+
 func FuncName(f *types.Func) string {
 	if f == nil {
 		return "?"
@@ -260,9 +281,9 @@ func FuncName(f *types.Func) string {
 		}
 		switch n := t.(type) {
 		case *types.Named:
-			return pkg + n.Obj().Name() + "." + f.Name()
+			return pkg + typeObjName(n.Obj()) + "." + f.Name()
 		case *types.Alias:
-			return pkg + n.Obj().Name() + "." + f.Name()
+			return pkg + typeObjName(n.Obj()) + "." + f.Name()
 		}
 		return pkg + "?." + f.Name()
 	}
